@@ -686,6 +686,21 @@ impl<'a> GExec<'a> {
         }) {
             return false;
         }
+        // an executed message must stay executed whatever is approved afterwards (this is
+        // what "cannot be delivered again" rests on, hence also tagged C16)
+        for (m, d) in resolved.iter().zip(dests.iter()) {
+            let key = (m.source_chain.clone(), m.message_id.clone());
+            if matches!(self.gws[g].m.status.get(&key), Some(MsgStatus::Executed)) {
+                let mv = self.msg_val(m, d);
+                let e = self.sim.query(&gaddr, "is_message_executed", (mv.source_chain.clone(), mv.message_id.clone()).into_val(&env));
+                let ev = e.val().and_then(|v| bool::try_from(v).ok());
+                if !ctx.check(ev == Some(true), &["C02", "C16"], "approve/reopened-executed-id", || {
+                    format!("re-approval of the executed message ({:?},{:?}) made it deliverable again", m.source_chain, m.message_id)
+                }) {
+                    return false;
+                }
+            }
+        }
         // effects
         let mut expected: Vec<Ev> = vec![];
         let mut fresh = 0;
